@@ -71,7 +71,13 @@ func genPerm(rt *rapid.T, faults bool, lateFaults ...bool) permProg {
 	for i := 0; i < npat; i++ {
 		t := rapid.IntRange(0, 2).Draw(rt, "ptopic")
 		u := rapid.IntRange(0, 4).Draw(rt, "ptarget")
-		switch rapid.SampledFrom([]string{"ban_resub", "admin_selfgrant", "offer_reload_accept", "unsub_reload_resub", "offer_partial_accept"}).Draw(rt, "pattern") {
+		switch rapid.SampledFrom([]string{"ban_resub", "admin_selfgrant", "offer_reload_accept", "unsub_reload_resub", "offer_partial_accept", "ban_unsub_reload_resub"}).Draw(rt, "pattern") {
+		case "ban_unsub_reload_resub":
+			ban := rapid.SampledFrom([]string{"N", "RWP", "JRP"}).Draw(rt, "pban2")
+			pre = append(pre, permAct{Kind: "setother", Topic: t, Target: u, Mode: ban, As: "owner"},
+				permAct{Kind: "deltopic", Topic: t, Target: u, As: "target"},
+				permAct{Kind: "reload", Topic: t, Target: u},
+				permAct{Kind: "sub", Topic: t, Target: u, As: "target"})
 		case "ban_resub":
 			ban := rapid.SampledFrom([]string{"N", "N", "RWP", "JP"}).Draw(rt, "pban")
 			pre = append(pre, permAct{Kind: "setother", Topic: t, Target: u, Mode: ban, As: "owner"},
@@ -595,7 +601,12 @@ func runPerm(t *testing.T, sched simrt.Schedule, prog permProg) ([]Violation, Ru
 								want = prev[1]
 							}
 							if po.Cat == types.TopicCatP2P {
-								break // p2p grants derive from the two users' default access: checked by the p2p mask invariant
+								// a first p2p grant derives from the partner's default access (checked by the p2p mask invariant);
+								// a subscription that was deleted and is made again must come back with the grant it had
+								if prev, ok := e.PreSoft[simdbSubKey(name, uid)]; ok && a.Given != prev[1] {
+									out = append(out, vio("C07", "p2p-resubscribe-grant", "user %d subscribed again to %s and was granted %v, the deleted subscription had %v", p.C.User.Idx, name, a.Given, prev[1]))
+								}
+								break
 							}
 							if a.Given != want {
 								out = append(out, vio("C07", "first-subscribe-grant", "user %d subscribed to %s and was granted %v, expected %v (default for level or previous grant)", p.C.User.Idx, name, a.Given, want))
@@ -773,6 +784,14 @@ func runPerm(t *testing.T, sched simrt.Schedule, prog permProg) ([]Violation, Ru
 				}
 				logBefore := len(simStore.Log)
 				w.runPhase(lv)
+				// grants on record before everybody comes back, deleted subscriptions included
+				gnPre := w.globalName(c, mustResolve(w, name))
+				grantBefore := map[types.Uid]types.AccessMode{}
+				for _, sr := range w.Disk.Subs {
+					if sr.Topic == gnPre {
+						grantBefore[sr.User] = sr.ModeGiven
+					}
+				}
 				back := map[int][]*Op{}
 				for _, oc := range w.Clients {
 					back[oc.Idx] = []*Op{opSub(c01TopicName(sc, oc, a.Topic), "", "")}
@@ -797,6 +816,22 @@ func runPerm(t *testing.T, sched simrt.Schedule, prog permProg) ([]Violation, Ru
 					div.forget(gn)
 				}
 				out = append(out, relabel(permInvariants(w, sn, "after reload"))...)
+				// coming back with a plain {sub} changes nobody's grant: a subscription that had been deleted comes
+				// back with the grant it had (C07: unsubscribing and subscribing again restores the previous grant)
+				if !prog.Faults {
+					for _, sr := range w.Disk.Subs {
+						if sr.Topic != gn || sr.DeletedAt != nil {
+							continue
+						}
+						if before, ok := grantBefore[sr.User]; ok && before != sr.ModeGiven {
+							kind := "group"
+							if strings.HasPrefix(gn, "p2p") {
+								kind = "p2p"
+							}
+							out = append(out, vio("C07", "grant-changed-by-coming-back "+kind, "topic %s: the grant of user %s was %v before everybody left and is %v after everybody came back with a plain {sub}", gn, sr.User.UserId(), before, sr.ModeGiven))
+						}
+					}
+				}
 				// the come-back phase consists of plain {sub} requests
 				rc := "sub"
 				if strings.HasPrefix(gn, "p2p") {
